@@ -25,6 +25,7 @@
   and the serialisers are tied by the correspondence harness (`harness/corr_C18.py`), which also
   evaluates the property itself on the real round trip.
 -/
+import Aegean.Generated.C18
 import Aegean.Model.C18
 import Aegean.Proofs.C18
 
@@ -553,5 +554,122 @@ theorem pinned_copies_masked :
     (toSources ["peak_flux".toList] (⟨.component, [("peak_flux".toList, .nan)]⟩ : Src Int)
         ((mkTable [] false ["peak_flux".toList] [⟨.component, [("peak_flux".toList, .nan)]⟩]).mapCells
           (maskOnRead true true))).map (fun r : Src Int => r.get "peak_flux".toList) = [.nan] := by decide
+
+/-! ### (6) obligations on the decision tables REGENERATED from the source on every run
+    (`Gen.C18.fitsLetter`, `fitsWidth`, `sqlCode`, `classifyWhich`; they break when the code changes meaning) -/
+
+set_option linter.unusedSimpArgs false
+
+/-- **gen_classify_table**: the regenerated isinstance chain of `classify_catalog` sends ComponentSource to
+    the 1st returned list, IslandSource to the 2nd, a plain SimpleSource to the 3rd, anything else nowhere -/
+theorem gen_classify_table :
+    Gen.C18.classifyWhich 3 = 1 ∧ Gen.C18.classifyWhich 2 = 2 ∧ Gen.C18.classifyWhich 1 = 3 ∧
+    Gen.C18.classifyWhich 0 = 0 := by decide
+
+/-- **gen_classify_eq**: `classify_catalog` assembled from the regenerated table IS the model `classify`, for
+    every catalogue — so `classify_stable_partition` and everything downstream speak about the code's own chain -/
+theorem gen_classify_eq (cat : List (Src α)) : classifyG Gen.C18.classifyWhich cat = classify cat := by
+  obtain ⟨h3, h2, h1, h0⟩ := gen_classify_table
+  have hstep : ∀ (acc : List (Src α) × List (Src α) × List (Src α)) (s : Src α),
+      classifyStepG Gen.C18.classifyWhich acc s = classifyStep acc s := by
+    intro acc s
+    cases h : s.cls <;> simp [classifyStepG, classifyStep, Cls.code, Cls.isInstance, h, h0, h1, h2, h3]
+  unfold classifyG classify
+  generalize (([], [], []) : List (Src α) × List (Src α) × List (Src α)) = acc
+  induction cat generalizing acc with
+  | nil => rfl
+  | cons s t ih => simp only [List.foldl_cons, hstep, ih]
+
+/-- the regenerated partition has all the properties of `classify_stable_partition` -/
+theorem gen_classify_stable_partition (cat : List (Src α)) :
+    classifyG Gen.C18.classifyWhich cat = (ofClass .component cat, ofClass .island cat, ofClass .simple cat) := by
+  rw [gen_classify_eq, classify_eq]
+
+/-- **gen_fits_err**: a column whose name starts with `err_` is an `E` column whatever it holds -/
+theorem gen_fits_err (u k m t v : Nat) : Gen.C18.fitsLetter 1 u k m t v = 69 := by
+  simp [Gen.C18.fitsLetter, fitsLetterHand]
+
+/-- **gen_fits_string_width**: a string column (dtype kind U or S) whose name does not start with `err_`
+    is an `A` column as wide as the longest entry of ANY row (and at least 1) — not the first row's width,
+    and whatever the column is called (the obligation DESIGN §6 #23 fails on the pinned code) -/
+theorem gen_fits_string_width (u k m t v : Nat) (hk : k = 3 ∨ k = 4) :
+    Gen.C18.fitsLetter 0 u k m t v = 65 ∧ Gen.C18.fitsWidth 0 u k m t v = max 1 m := by
+  constructor
+  · rcases hk with rfl | rfl <;> simp [Gen.C18.fitsLetter, fitsLetterHand]
+  · rcases hk with rfl | rfl <;> simp only [Gen.C18.fitsWidth, fitsWidthHand] <;>
+      simp <;> (try split) <;> omega
+
+/-- **gen_fits_first_row**: every other column takes the type letter of its first row's python type:
+    bool `L`, int `J`, float `E`, str `A` of that string's length, anything else `5A` -/
+theorem gen_fits_first_row (u k m t v : Nat) (h3 : k ≠ 3) (h4 : k ≠ 4) :
+    (t = 0 → Gen.C18.fitsLetter 0 u k m t v = 76) ∧ (t = 1 → Gen.C18.fitsLetter 0 u k m t v = 74) ∧
+    (t = 2 → Gen.C18.fitsLetter 0 u k m t v = 69) ∧
+    (t = 3 → Gen.C18.fitsLetter 0 u k m t v = 65 ∧ Gen.C18.fitsWidth 0 u k m t v = v) ∧
+    (4 ≤ t → Gen.C18.fitsLetter 0 u k m t v = 65 ∧ Gen.C18.fitsWidth 0 u k m t v = 5) := by
+  refine ⟨?_, ?_, ?_, ?_, ?_⟩
+  · rintro rfl; simp [Gen.C18.fitsLetter, fitsLetterHand, h3, h4]
+  · rintro rfl; simp [Gen.C18.fitsLetter, fitsLetterHand, h3, h4]
+  · rintro rfl; simp [Gen.C18.fitsLetter, fitsLetterHand, h3, h4]
+  · rintro rfl; simp [Gen.C18.fitsLetter, Gen.C18.fitsWidth, fitsLetterHand, fitsWidthHand, h3, h4]
+  · intro ht
+    have a0 : t ≠ 0 := by omega
+    have a1 : t ≠ 1 := by omega
+    have a2 : t ≠ 2 := by omega
+    have a3 : t ≠ 3 := by omega
+    simp [Gen.C18.fitsLetter, Gen.C18.fitsWidth, fitsLetterHand, fitsWidthHand, h3, h4, a0, a1, a2, a3]
+
+theorem colKind_str (col : List (Val α)) (h : isStrCol col = true) : colKind col = 3 := by simp [colKind, h]
+
+theorem colKind_not_str (col : List (Val α)) (h : isStrCol col = false) : colKind col ≠ 3 ∧ colKind col ≠ 4 := by
+  unfold colKind
+  simp only [h, Bool.false_eq_true, if_false]
+  repeat' split
+  all_goals omega
+
+/-- **gen_column_decision**: the column format assembled from the regenerated table IS the model's
+    `columnFmt`, for every column name and every column — so `fits_format_decision`,
+    `fits_strings_roundtrip`, `fits_float_column`, `fits_int_column` speak about the code's own chain -/
+theorem gen_column_decision (name : Str) (col : List (Val α)) :
+    columnFmtG Gen.C18.fitsLetter Gen.C18.fitsWidth name col = some (columnFmt name col) := by
+  unfold columnFmtG columnFmt
+  by_cases he : errPrefix.isPrefixOf name = true
+  · simp only [he, if_true, gen_fits_err]; rfl
+  · simp only [he, Bool.false_eq_true, if_false]
+    cases hs : isStrCol col
+    · obtain ⟨k3, k4⟩ := colKind_not_str col hs
+      obtain ⟨f0, f1, f2, f3, f4⟩ := gen_fits_first_row (if name = uuidName then 1 else 0) (colKind col) (maxLen col)
+        ((col.head?.getD .none).tag) ((col.head?.getD .none).strLen) k3 k4
+      simp only [Bool.false_eq_true, if_false]
+      cases hv : col.head?.getD .none <;> simp only [hv, Val.tag, Val.strLen, fitsType] at f0 f1 f2 f3 f4 ⊢
+      all_goals simp_all [decodeFmt]
+    · obtain ⟨g1, g2⟩ := gen_fits_string_width (if name = uuidName then 1 else 0) (colKind col) (maxLen col)
+        ((col.head?.getD .none).tag) ((col.head?.getD .none).strLen) (Or.inl (colKind_str col hs))
+      simp only [if_true, g1, g2]; rfl
+
+/-- the characterisation `fits_format_decision`, for the regenerated decision -/
+theorem gen_fits_format_decision (ops : FloatOps α) (name : Str) (v : Val α) (vs : List (Val α)) :
+    columnFmtG Gen.C18.fitsLetter Gen.C18.fitsWidth name (unify ops (v :: vs)) = some (
+      if errPrefix.isPrefixOf name then .E
+      else if (v :: vs).all Val.isStr then .A (max 1 (maxLen (v :: vs)))
+      else if (v :: vs).all Val.isNum then (if (v :: vs).any Val.isFloat then .E else .J)
+      else fitsType v) := by
+  rw [gen_column_decision, fits_format_decision]
+
+/-- with the regenerated decision every string of a string column fits its column, whichever row is first -/
+theorem gen_strings_fit (ops : FloatOps α) (name : Str) (col : List (Val α))
+    (hname : errPrefix.isPrefixOf name = false) (hcol : col.all Val.isStr = true) (s : Str) (hs : Val.str s ∈ col) :
+    ∃ f, columnFmtG Gen.C18.fitsLetter Gen.C18.fitsWidth name (unify ops col) = some f ∧
+      fitsStore ops f (.str s) = some (.str (rstrip s)) :=
+  ⟨_, gen_column_decision name (unify ops col), fits_strings_roundtrip ops name col hname hcol s hs⟩
+
+/-- **gen_sql_type**: the regenerated `sqlTypes` chain declares BOOL / INT / FLOAT / VARCHAR exactly as the model -/
+theorem gen_sql_type (v : Val α) : sqlTypeG Gen.C18.sqlCode v = some (sqlType v) := by
+  cases v <;> simp [sqlTypeG, Val.tag, Gen.C18.sqlCode, sqlCodeHand, decodeSql, sqlType]
+
+/-- non-vacuity: the assembled decisions on concrete columns -/
+example : columnFmtG Gen.C18.fitsLetter Gen.C18.fitsWidth "x_uuid".toList
+      ([.str "ab".toList, .str "abcdef".toList] : List (Val Int)) = some (.A 6) ∧
+    columnFmtG Gen.C18.fitsLetter Gen.C18.fitsWidth "flags".toList ([.int 1, .int 2] : List (Val Int)) = some .J ∧
+    sqlTypeG Gen.C18.sqlCode (.nan : Val Int) = some "FLOAT".toList := by decide
 
 end Aegean.Properties.C18
